@@ -85,12 +85,19 @@ func (x *XmlNode) Next(r node.ListRequest) (node.Node, []val.Value, error) {
 	if r.Key != nil {
 		for _, n := range x.Nodes {
 			for i, k := range r.Key {
-				v, found := n.field(r.Meta.KeyMeta()[i])
+				kmeta := r.Meta.KeyMeta()[i]
+				v, found := n.field(kmeta)
 				if !found {
 					break
 				}
 				// a key given only in part (l=a for the key "a b") has nil components, it names no entry
-				if k == nil || k.String() != v {
+				if k == nil {
+					break
+				}
+				// compared as values of the key's type: the text of a value is not always what its
+				// String() gives (decimal64 1.00000011)
+				candidate, err := node.NewValue(kmeta.Type(), v)
+				if err != nil || !val.Equal(k, candidate) {
 					break
 				}
 				isLastKey := i == (len(r.Key) - 1)
